@@ -11,6 +11,21 @@ class CaseTimeout(BaseException):
     """Raised by the per-case watchdog (SIGALRM). A watchdog expiry is never a verdict."""
 
 
+class TooManyTimeouts(BaseException):
+    """The per-case watchdog expired so often that going on would only burn the time budget: the run stops
+    and is reported inconclusive (unless violations were recorded before)."""
+
+
+MAX_CASE_TIMEOUTS = 12
+_timeouts = [0]
+
+
+def note_timeout():
+    _timeouts[0] += 1
+    if _timeouts[0] > MAX_CASE_TIMEOUTS:
+        raise TooManyTimeouts("%d library calls did not return within %ss" % (_timeouts[0], CASE_TIME_LIMIT))
+
+
 @contextlib.contextmanager
 def time_limit(seconds):
     """Wall-clock watchdog around one library call (main thread only; no-op elsewhere)."""
@@ -70,6 +85,7 @@ def lib_unpack(cls, raw, offset=0):
             else:
                 pkt = cls.unpack(raw)
     except CaseTimeout:
+        note_timeout()
         return LibResult("timeout")
     except bp.PacketError as e:
         return LibResult("packeterror", err=e)
@@ -86,6 +102,7 @@ def lib_pack(pkt):
         with time_limit(CASE_TIME_LIMIT):
             out = pkt.pack()
     except CaseTimeout:
+        note_timeout()
         return LibResult("timeout")
     except bp.PacketError as e:
         return LibResult("packeterror", err=e)
